@@ -1,6 +1,6 @@
 CONSTANTS
-  ModS = 1
-  ModV = 12
+  ModS = 12
+  ModV = 360
   Ext2 = 8
   ModP = 150
   ModQ = 150
